@@ -33,7 +33,7 @@ func (c13) Runs(tier string) int {
 
 func (c13) Components() ([]string, []string) {
 	return []string{"fasta.ParseConcurrent (line state machine, sends, close)", "fasta.Parse (internal goroutine + 1000-slot channel)", "fasta.Read/ReadGz/ReadConcurrent/ReadGzConcurrent on run-private files (real OS, fault-free)", "fasta.Build / fasta.Write", "bufio.Scanner", "compress/gzip"},
-		[]string{"SimReader (simulated byte source: chunking, zero-length reads, data-with-EOF)", "output channel and its consumer (simulator-owned actor: eager, lazy, bursty, stalled)", "goroutine scheduler", "independent FASTA writer (wrapping, blank lines, ';' comments, CRLF, gzip)", "abstract record list (reference model)"}
+		[]string{"SimReader (simulated byte source: chunking, zero-length reads, data-with-EOF)", "output channel and its consumer (a goroutine of the harness blocking in real receives; when it receives is a scheduling decision: eager, lazy, bursty, stalled in simulated time)", "goroutine scheduler", "independent FASTA writer (wrapping, blank lines, ';' comments, CRLF, gzip)", "abstract record list (reference model)"}
 }
 
 func (c13) Rule() string {
@@ -53,6 +53,7 @@ type c13Scenario struct {
 	Bytes    int             `json:"bytes"`
 	Lines    int             `json:"lines"`
 	Entry    string          `json:"entry"`
+	EntryB   string          `json:"second_concurrent_caller_entry,omitempty"`
 	Cap      int             `json:"channel_capacity"`
 	Reader   string          `json:"reader_policy"`
 	Received int             `json:"received"`
@@ -332,10 +333,12 @@ func (c13) Run(t *testing.T, tape *core.Tape, rcx *RunCtx) *core.Result {
 
 	// a second, intact file parsed at the same time by another caller: two parses in
 	// one process must not interfere (pooled buffers, package-level state)
-	dual := tape.Chance(10)
+	dual := tape.Chance(10) || (entry >= 2 && tape.Chance(20))
 	var recsB, gotB []fasta.Fasta
 	var textB []byte
 	closedB := false
+	entryB := 0
+	pathB := ""
 	if dual {
 		recsB = make([]fasta.Fasta, 1+tape.Draw(6))
 		for i := range recsB {
@@ -343,6 +346,22 @@ func (c13) Run(t *testing.T, tape *core.Tape, rcx *RunCtx) *core.Result {
 		}
 		textB = fasta.Build(recsB)
 		res.Count("probe_two_files_parsed_concurrently", 1)
+		// the second caller comes in through any entry point as well: a stream, a
+		// compressed stream, or a (compressed) file read whole or streamed
+		entryB = tape.Weighted(45, 10, 15, 15, 15)
+		sc.EntryB = []string{"ParseConcurrent", "ParseConcurrent(gzip)", "ReadConcurrent", "ReadGz", "ReadGzConcurrent"}[entryB]
+		if entryB >= 2 {
+			pathB = filepath.Join(rcx.TmpDir, fmt.Sprintf("c13-%d-b.fasta", rcx.Index))
+			if entryB == 2 {
+				os.WriteFile(pathB, textB, 0o644)
+			} else {
+				os.WriteFile(pathB, gz(textB), 0o644)
+			}
+			defer os.Remove(pathB)
+		}
+		if entryB == 1 {
+			textB = gz(textB)
+		}
 	}
 	var rdB *core.SimReader
 	var got []fasta.Fasta
@@ -370,6 +389,8 @@ func (c13) Run(t *testing.T, tape *core.Tape, rcx *RunCtx) *core.Result {
 			if rdB != nil {
 				consumed += rdB.Consumed()
 				reads += rdB.Reads
+			} else if dual {
+				consumed += len(textB)
 			}
 			// a parser that polls with timers while the consumer stalls spends steps in
 			// proportion to the simulated waiting time: 10000 steps per stalled second
@@ -441,8 +462,30 @@ func (c13) Run(t *testing.T, tape *core.Tape, rcx *RunCtx) *core.Result {
 		}
 		if dual {
 			chB := make(chan fasta.Fasta, []int{0, 1, 100}[tape.Draw(3)])
-			rdB = core.NewSimReader(sim, tape, textB, nil, len(textB) > 20000)
-			sim.Go(func() { fasta.ParseConcurrent(rdB, chB) })
+			if entryB < 2 {
+				rdB = core.NewSimReader(sim, tape, textB, nil, len(textB) > 20000)
+			}
+			sim.Go(func() {
+				switch entryB {
+				case 0:
+					fasta.ParseConcurrent(rdB, chB)
+				case 1:
+					zr, err := gzip.NewReader(rdB)
+					if err != nil {
+						panic("harness: gzip header: " + err.Error())
+					}
+					fasta.ParseConcurrent(zr, chB)
+				case 2:
+					fasta.ReadConcurrent(pathB, chB)
+				case 3:
+					for _, r := range fasta.ReadGz(pathB) {
+						chB <- r
+					}
+					close(chB)
+				case 4:
+					fasta.ReadGzConcurrent(pathB, chB)
+				}
+			})
 			sim.GoConsumer(func() {
 				for {
 					sim.Yield("consumer-b:before-receive")
@@ -471,6 +514,7 @@ func (c13) Run(t *testing.T, tape *core.Tape, rcx *RunCtx) *core.Result {
 	res.Nontrivial = sim.Multi > 0 || (rd != nil && rd.ShortReads+rd.ZeroReads+rd.EOFWithData > 0)
 	res.ShapeKey = fmt.Sprintf("%s|%s|n%d|cap%d|gz%v|%s|%s|%s|b%d", sc.Entry, sc.Writer, nrec, sc.Cap, sc.Gzip, sc.Wrap, sc.LineEnd, sc.Reader, len(payload))
 	res.Count("decisions_with_choice", int64(sim.Multi))
+	res.Count("fault_timer_wins_race_time_passes_while_runnable", int64(sim.Jitters))
 	res.Count("fault_consumer_stall_in_simulated_time", int64(stallCount))
 	res.SimTimeNs = int64(sim.SimTime)
 	res.Count("probe_entry_"+sc.Entry, 1)
